@@ -41,6 +41,23 @@ def main() -> int:
         return mod.replay(rec) if hasattr(mod, "replay") else _generic_replay(mod, rec, a)
     chk = core.Check(a.prop, a.tier, mod.LEVEL, mod.TECHNIQUE)
     chk.ignore_ledger = bool(a.update_ledger or a.only)
+    if "vlib.pyvc" in sys.modules and not a.only:
+        # the check's proofs rest on the E3 symbolic executor: before anything it says is believed, the executor is compared with
+        # CPython on the self-test functions (a disagreement is a defect of the MACHINERY: exit 3, nothing is reported about the property)
+        from . import selftest
+
+        try:
+            r = selftest.run_all(n_random=120 if a.tier == "thorough" else 12)
+        except Exception:  # noqa: BLE001
+            traceback.print_exc()
+            r = {"cases": 0, "inputs": 0, "disagreements": ["self-test crashed"]}
+        if r["disagreements"] or not r["inputs"]:
+            for d in r["disagreements"][:5]:
+                print(f"CHECKER-ERROR engine self-test: {d}")
+            print(f"CHECKER-ERROR property={a.prop} the E3 executor disagrees with CPython on its self-test; no verdict")
+            return 3
+        chk.trust(f"E3 executor vlib/pyvc.py: differential self-test against CPython on this run: {r['cases']} functions, {r['inputs']} inputs, 0 disagreements "
+                  "(vlib/selftest.py); outside those shapes its semantics is trusted")
     try:
         mod.build(chk)
         if a.only:
